@@ -30,6 +30,9 @@ The transition system below is parameterised by these two flags; every `rm_*` th
 structure Cfg where
   pre  : Bool
   asrt : Bool
+  /-- the lookup inside the flight can FAIL (not "absent": an error): the closure then returns that error without
+  running the loader (`cacheNode.doTake`: `doGetCache` returns a redis / context error other than not-found) -/
+  lerr : Bool := false
   deriving Repr, DecidableEq
 
 /-- `ResourceManager.GetResource` (core/syncx/resourcemanager.go). -/
@@ -37,7 +40,7 @@ def Cfg.getResource : Cfg := { pre := false, asrt := true }
 /-- `collection.Cache.Take` (core/collection/cache.go): map = `c.data`, loader = `fetch`, store = `c.Set`. -/
 def Cfg.cacheTake : Cfg := { pre := true, asrt := false }
 /-- `cacheNode.doTake` (core/stores/cache/cachenode.go): map = the redis key, loader = `query`, store = `cacheVal`. -/
-def Cfg.doTake : Cfg := { pre := false, asrt := true }
+def Cfg.doTake : Cfg := { pre := false, asrt := true, lerr := true }
 
 namespace RM
 
@@ -53,6 +56,8 @@ g0    manager.lock.RLock()
 g1    resource, ok := manager.resources[key]
 g2    manager.lock.RUnlock()
 g3    if ok { return resource, nil }
+      (only `Cfg.lerr`, environment input ≠ 0: the lookup had failed with an error — the closure returns `(nil, err)`
+       at once, no `create`; `cacheNode.doTake`: "we don't allow the disaster pass to the dbs")
 g4    create() starts        (environment input ≠ 0: it is going to panic → gp)
 g5    create() returns;  if err != nil { return nil, err }
 gp    create() panics: the closure and makeCall's store are abandoned, makeCall's deferred block runs (d0 … d3)
@@ -144,9 +149,13 @@ def step (s : St) (t : Tid) (x : Nat) : Option St :=
   | .g1 => some { s with loc := upd s.loc t ((s.res (s.key t)).getD 0), found := upd s.found t (s.res (s.key t)).isSome,
                          pc := upd s.pc t .g2 }
   | .g2 => some { s with nrd := s.nrd - 1, pc := upd s.pc t .g3 }
-  | .g3 => if s.found t then
-             some { s with tmp := upd s.tmp t (s.loc t), fnres := upd s.fnres (s.reg t) (some (s.loc t)), pc := upd s.pc t .m2 }
-           else some { s with pc := upd s.pc t .g4 }
+  | .g3 =>
+    match s.found t, decide (x ≠ 0 ∧ s.cfg.lerr = true) with
+    | _, true =>       -- the failed lookup comes first: whatever the key holds, the caller sees the error
+      some { s with tmp := upd s.tmp t 0, fnres := upd s.fnres (s.reg t) (some 0), pc := upd s.pc t .m2 }
+    | true, false =>
+      some { s with tmp := upd s.tmp t (s.loc t), fnres := upd s.fnres (s.reg t) (some (s.loc t)), pc := upd s.pc t .m2 }
+    | false, false => some { s with pc := upd s.pc t .g4 }
   | .g4 => if x = 0 then some { s with pc := upd s.pc t .g5 } else some { s with pc := upd s.pc t .gp }
   | .gp => some { s with pn := upd s.pn t true, pan := upd s.pan (s.reg t) true, fnres := upd s.fnres (s.reg t) (some 0),
                          pc := upd s.pc t .d0 }
@@ -169,11 +178,51 @@ def step (s : St) (t : Tid) (x : Nat) : Option St :=
   | .px => some { s with pc := upd s.pc t .idle, pn := upd s.pn t false, lret := upd s.lret (s.reg t) true }
 
 /-- `ResourceManager.Inject(key, resource)`: `lock.Lock(); resources[key] = resource; lock.Unlock()` — one atomic
-action with respect to the RW mutex (enabled iff no reader and no writer).  NOT part of `Reach`: the theorems are
-about managers whose map is only written by `GetResource` (Inject after a create trivially hands a second instance
-out, see the example in Props.lean); the correspondence runs use it to pre-register resources before any call. -/
+action with respect to the RW mutex (enabled iff no reader and no writer).  Not part of `Reach`; since round 5 part of
+`ReachI` (ProofsRMX.lean): registrations while no call is in progress, of keys that hold nothing — then every theorem
+holds with the registered resource as the key's instance (`rm_inject_*` in Props.lean).  Inject after a create trivially
+hands a second instance out (example in Props.lean); the correspondence runs pre-register resources before any call. -/
 def inject (s : St) (k : Key) (v : Val) : Option St :=
-  if s.rw = none ∧ s.nrd = 0 then some { s with res := upd s.res k (some v) } else none
+  if s.rw = none ∧ s.nrd = 0 then
+    -- (ghost: the registration counts as the key's one creation, the registered resource is its instance)
+    some { s with res := upd s.res k (some v), ncreate := upd s.ncreate k 1, inst := upd s.inst k v }
+  else none
+
+/-! ### `cacheNode.doTake`'s closure as a decision function (tied to the translated if / else-if tree in `Tie.lean`) -/
+
+/-- how `doGetCache` ended: a redis / context error, no entry, the not-found placeholder, a row, a row that does not
+unmarshal (`processCache` deletes it and reports not-found). -/
+inductive CacheRead | error | empty | placeholder | row | corrupt
+  deriving DecidableEq, Repr
+/-- how `query` ended. -/
+inductive QueryRes | row | notFound | error
+  deriving DecidableEq, Repr
+/-- what the closure hands to the flight. -/
+inductive ClosureOut | value | notFound | error
+  deriving DecidableEq, Repr
+
+structure Closure where
+  out     : ClosureOut
+  queried : Bool          -- `query` ran
+  stored  : Bool          -- something was written to the cache (`cacheVal`: the row; `setCacheWithNotFound`: the placeholder)
+  deriving DecidableEq, Repr
+
+def doTakeClosure (c : CacheRead) (q : QueryRes) : Closure :=
+  match c with
+  | .row => ⟨.value, false, false⟩
+  | .placeholder => ⟨.notFound, false, false⟩
+  | .error => ⟨.error, false, false⟩
+  | .empty | .corrupt =>
+    match q with
+    | .row => ⟨.value, true, true⟩
+    | .notFound => ⟨.notFound, true, true⟩
+    | .error => ⟨.error, true, false⟩
+
+/-- the same decisions in terms of the rows' inputs: `found` (a row or the placeholder is what the key holds — in the
+model the placeholder is an instance), the lookup-error input of row g3, the outcome input of row g5. -/
+def CacheRead.found : CacheRead → Bool | .row | .placeholder => true | _ => false
+def CacheRead.g3Input : CacheRead → Nat | .error => 1 | _ => 0
+def QueryRes.g5Input (v : Val) : QueryRes → Nat | .error => 0 | _ => v
 
 /-- the statement of `GetResource`'s closure each `g`/`m` row stands for (tied in `Tie.lean`). -/
 def stmt : PC → String
